@@ -21,10 +21,48 @@ type vfLLRecord struct {
 	Target int    // wanted total record length (0 = whatever Seed/N give)
 	N      int    // number of entries (starting point of the search)
 	Seed   uint64 // entry values are derived from it
+	Wide   bool   // offset, size and slot sit on the varint-width boundaries (1..10 bytes each, up to MaxUint64)
 }
 
 type vfLLCase struct {
 	Records []vfLLRecord
+}
+
+// vfLLwideValue returns a value on a varint-width boundary: 2^(7k)-1, 2^(7k), 2^63 or MaxUint64.
+func vfLLwideValue(r uint64) uint64 {
+	k := r % 12
+	switch {
+	case k == 10:
+		return 1 << 63
+	case k == 11:
+		return ^uint64(0)
+	case k == 9:
+		return 1<<63 - (r>>8)%2
+	}
+	return uint64(1)<<(7*(k+1)) - (r>>8)%2
+}
+
+func vfLLwideEntries(seed uint64, n int) []*OffsetAndSizeAndSlot {
+	x := seed
+	next := func() uint64 {
+		x += 0x9e3779b97f4a7c15
+		z := x
+		z = (z ^ (z >> 30)) * 0xbf58476d1ce4e5b9
+		z = (z ^ (z >> 27)) * 0x94d049bb133111eb
+		return z ^ (z >> 31)
+	}
+	out := make([]*OffsetAndSizeAndSlot, n)
+	for i := range out {
+		e := &OffsetAndSizeAndSlot{Offset: vfLLwideValue(next()), Size: vfLLwideValue(next()), Slot: vfLLwideValue(next()), Flags: Bitmap(next() & 7)}
+		if next()%3 == 0 { // all three fields at the widest encoding
+			e.Offset, e.Size, e.Slot = ^uint64(0)-next()%2, 1<<63+next()%2, ^uint64(0)>>(next()%2)
+			if e.Slot < 1<<63 {
+				e.Slot = 1 << 63
+			}
+		}
+		out[i] = e
+	}
+	return out
 }
 
 func vfLLentries(seed uint64, n int, compressible bool) []*OffsetAndSizeAndSlot {
@@ -74,6 +112,9 @@ func vfLLsearch(r vfLLRecord) ([]*OffsetAndSizeAndSlot, bool) {
 		n := r.N
 		if n < 1 {
 			n = 1
+		}
+		if r.Wide {
+			return vfLLwideEntries(r.Seed, n), true
 		}
 		return vfLLentries(r.Seed, n, r.Seed%2 == 0), true
 	}
@@ -196,7 +237,7 @@ func TestVfC06LinkedLog(t *testing.T) {
 	run := vfh.Begin("C06", "linkedlog-records")
 	defer run.End(t)
 	// 129 and 16386 cannot occur: a payload of 128 (16384) bytes needs a 2 (3) byte prefix
-	run.Require("len:127", "len:128", "len:130", "len:16383", "len:16384", "len:16385", "len:16387")
+	run.Require("len:127", "len:128", "len:130", "len:16383", "len:16384", "len:16385", "len:16387", "wide-varint-fields")
 	for _, p := range vfh.ReplayFiles("C06", "linkedlog-records") {
 		var c vfLLCase
 		if err := vfh.LoadCaseFile(p, &c); err != nil {
@@ -218,6 +259,7 @@ func TestVfC06LinkedLog(t *testing.T) {
 				r.Target = rapid.SampledFrom(vfLLTargets).Draw(rt, "target")
 			} else {
 				r.N = rapid.OneOf(rapid.IntRange(1, 30), rapid.IntRange(1, 1200)).Draw(rt, "n")
+				r.Wide = rapid.IntRange(0, 2).Draw(rt, "wide") == 0
 			}
 			c.Records = append(c.Records, r)
 		}
@@ -232,6 +274,13 @@ func TestVfC06LinkedLog(t *testing.T) {
 					cls = append(cls, fmt.Sprintf("len:%d", l))
 					boundary = true
 				}
+			}
+		}
+		for _, r := range c.Records {
+			if r.Wide && r.Target == 0 {
+				cls = append(cls, "wide-varint-fields")
+				boundary = true
+				break
 			}
 		}
 		run.Case(c, boundary, map[string]any{"records": c.Records, "lengths": fmt.Sprint(reached)}, cls...)
